@@ -31,6 +31,10 @@ fn main() {
         println!("INCONCLUSIVE property={id} watchdog after {limit}s");
         std::process::exit(2);
     });
+    if id == "C16" && mode == "child" {
+        // child side of the first-use workloads of C16
+        std::process::exit(props::c16::child(args.get(3).map(String::as_str).unwrap_or("")));
+    }
     if id == "C05" && mode == "child" {
         // child side of the cross-process comparison of C05
         std::process::exit(props::c05::child(args.get(3).map(String::as_str).unwrap_or("")));
